@@ -55,6 +55,8 @@ structure WF (s : State) : Prop where
   att_dims : ∀ n l, s.attached.lookup n = some l → (s.layers l).dims = s.dims
   handle_lt : ∀ h a d, s.handles.lookup h = some (a, d) → a < s.next
   legacy_data : s.impl ≠ .new → ∀ l, l < s.nLayers → (s.layers l).data ≠ 0
+  /-- new grids: an attached name is not an attribute of the cell class -/
+  att_free : s.impl = .new → ∀ n l, s.attached.lookup n = some l → n ∉ reservedNames
 
 /-- two states with the same tables (they may differ in array contents, agents, instance
     attributes, saved masks) -/
@@ -86,6 +88,7 @@ theorem WF.of_sameShape {s s' : State} (h : WF s) (e : SameShape s s') : WF s' :
   · rw [e2, e4, e6]; exact h.att_dims
   · rw [e3, e7]; exact h.handle_lt
   · rw [e1, e4, e5]; exact h.legacy_data
+  · rw [e1, e6]; exact h.att_free
 
 theorem WF_init (impl : Impl) (dims : List Nat) (cap : Nat) : WF (init impl dims cap) := by
   constructor
@@ -114,6 +117,14 @@ theorem WF_init (impl : Impl) (dims : List Nat) (cap : Nat) : WF (init impl dims
     simp only [init] at hl hi
     rw [if_neg hi] at hl
     omega
+  · intro hi n l h
+    simp only [init] at h
+    split at h
+    · simp only [List.lookup_cons, List.lookup_nil] at h
+      split at h
+      · next hb => rw [beq_iff_eq.mp hb]; decide
+      · simp at h
+    · simp at h
 
 /-! ### shape of the heap-only / table-free ops -/
 
@@ -270,10 +281,12 @@ theorem WF.alloc {s s' : State} (h : WF s) (L : Layer) (hL : L.data = s.next)
     split
     · omega
     · exact h.legacy_data hi l (by omega)
+  · rw [e1, e6]; exact h.att_free
 
 /-- register a live, well-shaped layer under its own (so far unused) name -/
 theorem WF.attachName {s s' : State} (h : WF s) (lid : Nat) (hlt : lid < s.nLayers)
     (hdims : (s.layers lid).dims = s.dims) (hnone : s.attached.lookup (s.layers lid).name = none)
+    (hfree : s.impl = .new → (s.layers lid).name ∉ reservedNames)
     (e1 : s'.impl = s.impl) (e2 : s'.dims = s.dims) (e3 : s'.next = s.next)
     (e4 : s'.layers = s.layers) (e5 : s'.nLayers = s.nLayers)
     (e6 : s'.attached = s.attached ++ [((s.layers lid).name, lid)]) (e7 : s'.handles = s.handles) :
@@ -312,6 +325,11 @@ theorem WF.attachName {s s' : State} (h : WF s) (lid : Nat) (hlt : lid < s.nLaye
     · exact hdims
   · rw [e3, e7]; exact h.handle_lt
   · rw [e1, e4, e5]; exact h.legacy_data
+  · intro hi n' l' hh
+    rw [e1] at hi
+    rcases key n' l' hh with h1 | ⟨rfl, _⟩
+    · exact h.att_free hi n' l' h1
+    · exact hfree hi
 
 theorem WF_newLayer {s : State} (h : WF s) (n : String) (dims : List Nat) (d : Int) :
     WF (newLayer s n dims d).1 := by
@@ -321,38 +339,41 @@ theorem WF_newLayer {s : State} (h : WF s) (n : String) (dims : List Nat) (d : I
   · exact h.alloc ⟨n, dims, s.next⟩ rfl rfl rfl rfl rfl rfl rfl rfl
 
 theorem attachCheck_none {s : State} {l : Layer} (h : attachCheck s l = none) :
-    s.attached.lookup l.name = none ∧ l.dims = s.dims := by
+    s.attached.lookup l.name = none ∧ l.dims = s.dims ∧ (s.impl = .new → l.name ∉ reservedNames) := by
   unfold attachCheck at h
   split at h
   · split at h
     · simp at h
     · split at h
       · simp at h
-      · next h1 h2 =>
-        simp only [State.named?, Option.isSome_iff_ne_none, ne_eq, Decidable.not_not] at h2
-        exact ⟨h2, by simpa using h1⟩
-  · split at h
+      · split at h
+        · simp at h
+        · next h1 h2 h3 =>
+          simp only [State.named?, Option.isSome_iff_ne_none, ne_eq, Decidable.not_not] at h2
+          exact ⟨h2, by simpa using h1, fun _ => h3⟩
+  · next hi =>
+    split at h
     · simp at h
     · split at h
       · simp at h
       · next h1 h2 =>
         simp only [State.named?, Option.isSome_iff_ne_none, ne_eq, Decidable.not_not] at h1
-        exact ⟨h1, by simpa using h2⟩
+        exact ⟨h1, by simpa using h2, fun e => absurd e hi⟩
 
 theorem WF_create {s : State} (h : WF s) (n : String) (d : Int) : WF (create s n d).1 := by
   unfold create
   split
   · exact h
   · next hc =>
-    obtain ⟨hnone, _⟩ := attachCheck_none hc
-    simp only at hnone
+    obtain ⟨hnone, _, hfree⟩ := attachCheck_none hc
+    simp only at hnone hfree
     -- first the allocation, then the registration
     let s1 : State := { s with heap := upd s.heap s.next (fun _ => d), next := s.next + 1,
                                 layers := upd s.layers s.nLayers ⟨n, s.dims, s.next⟩, nLayers := s.nLayers + 1 }
     have h1 : WF s1 := h.alloc ⟨n, s.dims, s.next⟩ rfl rfl rfl rfl rfl rfl rfl rfl
     have hl : s1.layers s.nLayers = ⟨n, s.dims, s.next⟩ := by simp [s1]
     refine h1.attachName s.nLayers (by simp [s1]) (by rw [hl]) (by rw [hl]; exact hnone)
-      rfl rfl rfl rfl rfl ?_ rfl
+      (by rw [hl]; exact hfree) rfl rfl rfl rfl rfl ?_ rfl
     rw [hl]
 
 theorem layer?_some {s : State} {lid : Nat} {l : Layer} (h : s.layer? lid = some l) :
@@ -371,8 +392,8 @@ theorem WF_attach {s : State} (h : WF s) (lid : Nat) : WF (attach s lid).1 := by
     split
     · exact h
     · next hc =>
-      obtain ⟨hnone, hdims⟩ := attachCheck_none hc
-      exact h.attachName lid hlt hdims hnone rfl rfl rfl rfl rfl rfl rfl
+      obtain ⟨hnone, hdims, hfree⟩ := attachCheck_none hc
+      exact h.attachName lid hlt hdims hnone hfree rfl rfl rfl rfl rfl rfl rfl
 
 theorem WF_detach {s : State} (h : WF s) (n : String) : WF (detach s n).1 := by
   unfold detach
@@ -393,6 +414,7 @@ theorem WF_detach {s : State} (h : WF s) (n : String) : WF (detach s n).1 := by
     · intro n' l' hh; exact h.att_dims n' l' (key n' l' hh)
     · exact h.handle_lt
     · exact h.legacy_data
+    · intro hi n' l' hh; exact h.att_free hi n' l' (key n' l' hh)
 
 theorem WF_modifyCells {s : State} (h : WF s) (lid : Nat) (f : Option (Int → Int))
     (cond : Option (Int → Bool)) : WF (modifyCells s lid f cond).1 := by
@@ -437,6 +459,7 @@ theorem WF_modifyCells {s : State} (h : WF s) (lid : Nat) (f : Option (Int → I
         split
         · have := h.next_pos; simp; omega
         · exact h.legacy_data hi l hl
+      · exact h.att_free
 
 theorem WF_grab {s : State} (h : WF s) (hd : Nat) (lid : Nat) : WF (grab s hd lid).1 := by
   unfold grab
@@ -457,6 +480,7 @@ theorem WF_grab {s : State} (h : WF s) (hd : Nat) (lid : Nat) : WF (grab s hd li
       · simp at hl; rw [← hl.1]; exact h.data_lt lid hlt
       · exact h.handle_lt hh a dd hl
     · exact h.legacy_data
+    · exact h.att_free
 
 theorem WF_step {s : State} (h : WF s) (op : Op) : WF (step s op).1 := by
   cases op with
